@@ -72,31 +72,36 @@ proposals, with or without a permutation distribution, a fixed order `σ` of dis
 (`PG.Hyp`), any list `L` of trees containing the partial trees met along `σ`, any threshold `θ`
 and any number `m + 1` of particles: `PG.spec` — states `L`, `q t x x'` = probability that
 `Proposal.table dt c (t = 0) x σ[t]` gives `x'` (`PG.qT`), `g t` = point mass at the empty tree for
-`t = 0`, `pMarg·pdf` on level `t` for `0 < t < |σ|`, `pOne·pdf` on the last level (`PG.gT`), `parent`
+`t = 0`, `κ·pMarg·pdf` on level `t` for `0 < t < |σ|`, `κ·pOne·pdf` on the last level (`PG.gT`; any
+constant `κ > 0` — with `κ = 1/N` the abstract weights are literally the code's, whose swarm starts
+with weights `1/N`), `parent`
 = removal of the last-placed data point (`PG.parentT`, C08's `recover`), `rs` = the relative-ESS rule
 (`PG.essRule`) — satisfies `ASMC.ValidTo … σ.length`. -/
-theorem pg_spec_valid (dt : Data) (c : Proposal.Cfg) (σ : List ℕ) (L : List T) (h : PG.Hyp dt c σ)
-    (hL : ∀ x ∈ PGSpec.states c σ, x ∈ L) (θ : ℚ) (m : ℕ) :
-    ASMC.ValidTo (PG.spec dt c σ L hL θ m) σ.length :=
-  PG.spec_valid h hL θ m
+theorem pg_spec_valid (dt : Data) (c : Proposal.Cfg) (σ : List ℕ) (κ : ℚ) (L : List T) (h : PG.Hyp dt c σ)
+    (hκ : 0 < κ) (hL : ∀ x ∈ PGSpec.states c σ, x ∈ L) (θ : ℚ) (m : ℕ) :
+    ASMC.ValidTo (PG.spec dt c σ κ L hL θ m) σ.length :=
+  PG.spec_valid h hκ hL θ m
 
 /-- **Conditional SMC along a fixed order leaves `pOne·pdf` invariant** on the complete trees
 reachable along that order (`PG.gT … σ.length` vanishes off the last level). -/
-theorem pg_csmc_invariant (dt : Data) (c : Proposal.Cfg) (σ : List ℕ) (L : List T) (h : PG.Hyp dt c σ)
-    (hL : ∀ x ∈ PGSpec.states c σ, x ∈ L) (θ : ℚ) (m : ℕ) (u : ℚ) (hu : 0 < u) (y : PG.St L) :
-    ∑ x : PG.St L, PG.gT dt c σ σ.length x.1 * ASMC.kernel (PG.spec dt c σ L hL θ m) u σ.length x y
-      = PG.gT dt c σ σ.length y.1 :=
-  PG.pg_csmc_invariant h hL θ m u hu y
+theorem pg_csmc_invariant (dt : Data) (c : Proposal.Cfg) (σ : List ℕ) (κ : ℚ) (L : List T)
+    (h : PG.Hyp dt c σ) (hκ : 0 < κ) (hL : ∀ x ∈ PGSpec.states c σ, x ∈ L) (θ : ℚ) (m : ℕ) (u : ℚ)
+    (hu : 0 < u) (y : PG.St L) :
+    ∑ x : PG.St L, PG.gT dt c σ κ σ.length x.1 * ASMC.kernel (PG.spec dt c σ κ L hL θ m) u σ.length x y
+      = PG.gT dt c σ κ σ.length y.1 :=
+  PG.pg_csmc_invariant h hκ hL θ m u hu y
 
 /-- the abstract incremental weight `g (t+1) x' / (g t x · q t x x')` is the model's
-`Proposal.incrWeight` (`Kernel.create_particle` + `_get_log_w`) -/
-theorem pg_incr_eq_incrWeight (dt : Data) (c : Proposal.Cfg) (σ : List ℕ) (L : List T) (h : PG.Hyp dt c σ)
-    (hL : ∀ x ∈ PGSpec.states c σ, x ∈ L) (θ : ℚ) (m : ℕ) (t : ℕ) (x x' : PG.St L)
-    (hx : x.1 ∈ PGSpec.level c σ t) (i : ℕ) (hi : σ[t]? = some i) (hc : x'.1 ∈ PGSpec.children c x.1 i) :
-    ASMC.incr (PG.spec dt c σ L hL θ m) t x x'
-      = Proposal.incrWeight dt c (t == 0) (t + 1 == σ.length) x.1 x'.1
+`Proposal.incrWeight` (`Kernel.create_particle` + `_get_log_w`), times `κ` at the first step -/
+theorem pg_incr_eq_incrWeight (dt : Data) (c : Proposal.Cfg) (σ : List ℕ) (κ : ℚ) (L : List T)
+    (h : PG.Hyp dt c σ) (hκ : 0 < κ) (hL : ∀ x ∈ PGSpec.states c σ, x ∈ L) (θ : ℚ) (m : ℕ) (t : ℕ)
+    (x x' : PG.St L) (hx : x.1 ∈ PGSpec.level c σ t) (i : ℕ) (hi : σ[t]? = some i)
+    (hc : x'.1 ∈ PGSpec.children c x.1 i) :
+    ASMC.incr (PG.spec dt c σ κ L hL θ m) t x x'
+      = (if t = 0 then κ else 1) *
+        Proposal.incrWeight dt c (t == 0) (t + 1 == σ.length) x.1 x'.1
           (PG.tprob (Proposal.table dt c (t == 0) x.1 i) x'.1) :=
-  PG.incr_eq_incrWeight h hL θ m hx hi hc
+  PG.incr_eq_incrWeight h hκ hL θ m hx hi hc
 
 /-- non-vacuity (all three): two data points on a 2-point grid with outlier prior 1/2, every proposal
 kind, outlier proposal probability 1/10, permutation distribution on, order `[1, 0]`: the
@@ -131,13 +136,13 @@ with data indices `D` (distinct, positive likelihoods, `α > 0`, outlier proposa
 threshold, any number `m + 1` of particles and any `u > 0`: with
 `PG.piD x = pOne x` on the complete trees of the data set (`PGSpec.finals`, 0 elsewhere),
 `PG.uOrd x σ = 1 / countCode x` on the compatible orders of `x` (0 elsewhere) and
-`PG.pgKernel x y = ∑ σ, uOrd x σ · ASMC.kernel (PG.spec σ) u |σ| x y`, summing over all trees of the
-common finite state space `PGSpec.allStates c D`:  `∑ x, piD x · pgKernel x y = piD y`. -/
+`PG.pgKernel x y = ∑ σ, uOrd x σ · ASMC.kernel (PG.spec σ κ) u |σ| x y` (any `κ > 0`), summing over all
+trees of the common finite state space `PGSpec.allStates c D`:  `∑ x, piD x · pgKernel x y = piD y`. -/
 theorem pg_invariant_abstract (dt : Data) (c : Proposal.Cfg) (D : List ℕ) (h : PG.HypD dt c D)
-    (θ : ℚ) (m : ℕ) (u : ℚ) (hu : 0 < u) (y : PG.St (PGSpec.allStates c D)) :
-    ∑ x : PG.St (PGSpec.allStates c D), PG.piD dt c D x.1 * PG.pgKernel dt c D θ m u x y
+    (κ : ℚ) (hκ : 0 < κ) (θ : ℚ) (m : ℕ) (u : ℚ) (hu : 0 < u) (y : PG.St (PGSpec.allStates c D)) :
+    ∑ x : PG.St (PGSpec.allStates c D), PG.piD dt c D x.1 * PG.pgKernel dt c D κ θ m u x y
       = PG.piD dt c D y.1 :=
-  PG.pg_invariant_abstract h θ m u hu y
+  PG.pg_invariant_abstract h κ hκ θ m u hu y
 
 /-- non-vacuity: the two-point data set of the C19 example satisfies the hypotheses for every proposal
 kind; `finals` lists six complete trees for each of the two orders -/
